@@ -1,7 +1,127 @@
-from ..model import AnalysisError
+"""C06 - FIFO, LIFO and filter retrieval discipline holds, also after cancellation (partial).
+
+  R1 the binder takes the first unreserved item in availability order (FIFO) / the last (LIFO), and arrivals
+     keep the availability order (append behind, never into the reserved block);
+  R2 a cancellation puts the released item *first among the unreserved* without permuting the others
+     (one removal + one re-insertion of that very item at |RE|_after resp. |A|−|RE|_after);
+  R3 in the filter store the item bound to the token is the item for which the filter returned true;
+  R4 nodes with several edges create their tokens in edge order, choose the first triggered in that order
+     and cancel all the others.
+"""
+from __future__ import annotations
+
+import ast
+
+from .. import lin, nodewalk, paths, storewalk, tables, typestate
+from ..model import AnalysisError, Project, self_attr, walk_no_nested
+from ..report import Result
+from ..tables import RG, RE, RI, TRIGGERS
+from .common import site, src
+from . import c02, c04
+
 PROP = 'C06'
 LEVEL = 'other'
 
 
-def run(p, tier):
-    raise AnalysisError('rule module for C06 not implemented yet (fail closed)')
+def run(p: Project, tier: str) -> Result:
+    r = Result(PROP)
+    r.explanation = ('Ordering reading of the binding algebra: which item a granted retrieval owns (first / last unreserved), where a released '
+                     'item returns to, that a filtered retrieval owns the item its filter matched, and that nodes keep exactly the first '
+                     'triggered of the tokens created in edge order. The order in which items *become* available (timers) is not decided.')
+    r.rule('C06.R1', 'binder picks the first (FIFO) / last (LIFO) unreserved item; arrivals never enter the reserved block', 16)
+    r.rule('C06.R2', 'cancellation re-inserts the released item first among the unreserved, others keep their order', 8)
+    r.rule('C06.R3', 'filter store: the bound item is the item the filter matched', 1)
+    r.rule('C06.R4', 'nodes: tokens in edge order, first triggered chosen, all others cancelled', 8)
+    r.not_decided = ['order of becoming available (per-item timers)', 'same-instant ordering of token triggers']
+    ws = storewalk.walks(p, assume_inv=('I1',))
+    for w in ws:
+        r.paths += w.npaths
+        c02.binding_checks(p, w, r, 'C06.R1', which=('binder', 'arrival', 'get'))
+        c02.binding_checks(p, w, r, 'C06.R2', which=('cancel',))
+        check_filter(p, w, r)
+    check_nodes(p, r)
+    return r
+
+
+def check_filter(p, w, r):
+    s = w.store
+    if not c04.grant_reads_request(w, 'get'):
+        return
+    fi = s.methods['_do_reserve_get']
+    r.analysed_functions.add(fi.key)
+    key = f'{s.ci.label}._do_reserve_get::filter-binds-matched-item'
+    ex = paths.Explorer(p, s.ci.key, tracked=set(s.lists), atomic={tables.LEVEL_UPDATER, *TRIGGERS}, unroll=2)
+    bad = None
+    n = 0
+    for pa in ex.paths(fi):
+        if pa.raises:
+            continue
+        evs = pa.events
+        gi = next((i for i, e in enumerate(evs) if e.kind == 'op' and e.list == RG and e.op == 'append'), None)
+        if gi is None:
+            continue
+        n += 1
+        # the value the filter was applied to on this (matching) iteration
+        matched = None
+        for e in reversed(evs[:gi]):
+            if e.kind == 'xcall' and e.name.endswith('.filter') and e.args:
+                matched = e.args[0]
+                break
+        if matched is None:
+            bad = (pa, 'the grant is not control dependent on a filter call')
+            continue
+        # how is the binding recorded?  (a) reserved_items.append(matched)   (b) the matched item is moved to position |RE|
+        ri = [e for e in evs[gi:] if e.kind == 'op' and e.list == RI and e.op == 'append']
+        moved = [e for e in evs[gi:] if e.kind == 'op' and e.list == s.avail and e.op == 'insert' and e.val == matched]
+        if ri and ri[0].val == matched:
+            continue
+        if moved:
+            continue
+        bad = (pa, ('the token is bound by position (reserved_events[k] ↔ items[k], k = |RE|) but the item that satisfied the filter is the loop '
+                    'variable of the scan: the bound position does not depend on it, so get() can return an item that does not satisfy the filter'))
+    if n == 0:
+        r.fail('C06.R3', key, 'no granting path in the filter binder', src(fi.module), fi.node.lineno)
+    elif bad:
+        r.fail('C06.R3', key, bad[1], src(fi.module), fi.node.lineno, bad[0].describe())
+    else:
+        r.ok('C06.R3', key, 'bound item = matched item', src(fi.module), fi.node.lineno)
+
+
+def check_nodes(p: Project, r: Result):
+    for w in nodewalk.walks(p):
+        r.paths += w.npaths
+        for root, ps in w.roots.items():
+            fi = w.root_funcs[root]
+            sites = {}
+            for pa in ps:
+                if pa.raises or pa.status == 'loopcut':
+                    continue
+                rep = typestate.analyse_tokens(pa)
+                for t in rep.toks:
+                    if not t.is_list:
+                        continue
+                    e = t.ev
+                    key = site(e.fi, e.node, f'first-triggered:{e.name}')
+                    rec = sites.setdefault(key, {'ok': True, 'e': e, 'pa': pa, 'why': ''})
+                    why = None
+                    if e.over not in ('self.in_edges', 'self.out_edges'):
+                        why = f'tokens are created over `{e.over}`, not over the node\'s edge list in edge order'
+                    elif t.chosen is None:
+                        why = 'no token is chosen on this path'
+                    else:
+                        pred = getattr(t, 'pred', '')
+                        if pred.replace(' ', '') not in ('event.triggered', 'e.triggered', 't.triggered', 'ev.triggered') and not pred.endswith('.triggered'):
+                            why = f'the chosen token is selected by `{pred}`, not by "first triggered"'
+                        elif not t.rest_cancelled:
+                            why = 'the tokens not chosen are not all cancelled'
+                        elif t.used != 1:
+                            why = f'the chosen token is used {t.used} times'
+                    if why and rec['ok']:
+                        rec.update(ok=False, pa=pa, why=why)
+            for key, rec in sorted(sites.items()):
+                e = rec['e']
+                r.analysed_functions.add(e.fi.key)
+                if rec['ok']:
+                    r.ok('C06.R4', key, 'edge order, first triggered, rest cancelled', src(e.fi.module), e.line)
+                else:
+                    r.fail('C06.R4', key, rec['why'], src(e.fi.module), e.line, rec['pa'].describe())
